@@ -18,11 +18,11 @@ MSimRespond(i, sw, lost) == SimRespond(i, sw, lost) /\ PrintT(ToJson(
     [src |-> St, act |-> [n |-> "SimRespond", id |-> sid + 1, batch |-> Batch(i), evs |-> Evs(Batch(i)),
                           swallow |-> {nev + j : j \in sw}, lost |-> lost],
      out |-> OutRespond(Batch(i), sw), dst |-> St']))
-MSimFail == SimFail /\ PrintT(ToJson([src |-> St, act |-> [n |-> "SimFail"], out |-> [k |-> "fail"], dst |-> St']))
+MSimFail(kind) == SimFail(kind) /\ PrintT(ToJson([src |-> St, act |-> [n |-> "SimFail", kind |-> kind], out |-> OutFail(kind), dst |-> St']))
 MInject == Inject /\ PrintT(ToJson([src |-> St, act |-> [n |-> "Inject", e |-> 901 + ninj], out |-> [k |-> "none"], dst |-> St']))
 MTeardown == Teardown /\ PrintT(ToJson([src |-> St, act |-> [n |-> "Teardown"], out |-> [k |-> "none"], dst |-> St']))
 MNext == \/ MPollFwd \/ \E lost \in BOOLEAN : MPollCached(lost)
          \/ \E i \in 1..6 : \E sw \in SUBSET (1..2) : \E lost \in BOOLEAN : MSimRespond(i, sw, lost)
-         \/ MSimFail \/ MInject \/ MTeardown \/ MObs
+         \/ (\E kind \in FailKinds : MSimFail(kind)) \/ MInject \/ MTeardown \/ MObs
 MSpec == MInit /\ [][MNext]_vars
 ====
